@@ -392,40 +392,42 @@ Proof.
 Qed.
 
 Lemma pwc_M_dominates ps p : In p ps ->
-  pU p <= list_max (pU (hd p ps)) (map pU (tl ps)) /\ list_min (pL (hd p ps)) (map pL (tl ps)) <= pL p.
+  pU p <= list_max (pU (hd p ps)) (map pU (tl ps)) /\ list_min (pL (hd p ps)) (map pL (tl ps)) <= pL p /\
+  pC p <= list_max (pC (hd p ps)) (map pC (tl ps)) /\ list_min (pC (hd p ps)) (map pC (tl ps)) <= pC p.
 Proof.
   destruct ps as [|p0 r]; [intros []|]. cbn [hd tl]. intros [<-|Hin].
-  - split; [apply (proj1 (list_max_ge _ _))|apply (proj1 (list_min_le _ _))].
-  - split; [apply (proj2 (list_max_ge _ _)); apply in_map; exact Hin|apply (proj2 (list_min_le _ _)); apply in_map; exact Hin].
+  - repeat split; first [apply (proj1 (list_max_ge _ _))|apply (proj1 (list_min_le _ _))].
+  - repeat split; first [apply (proj2 (list_max_ge _ _)); apply in_map; exact Hin|apply (proj2 (list_min_le _ _)); apply in_map; exact Hin].
 Qed.
 
-(* with the code's M: exact whenever ranges are non-empty, x lies in a range and the spread of the
-   constants is at most M  (the last premise is NOT implied by the documented preconditions) *)
+(* with the code's M the helper is exact under exactly its documented preconditions:
+   non-empty ranges and x inside one of them *)
 Theorem pwc_code_M_complete x y ps p :
   (forall p', In p' ps -> pL p' <= pU p') ->
   In p ps -> pL p <= x <= pU p -> y == pC p ->
-  (forall p', In p' ps -> pC p - pC p' <= pwc_M ps /\ pC p' - pC p <= pwc_M ps) ->
   pwc (pwc_M ps) x y ps.
 Proof.
-  intros Hne Hin Hx Hy Hsp. apply (pwc_complete _ x y ps p Hin Hx Hy).
-  intros p' Hin'. destruct (Hsp p' Hin') as [S1 S2]. repeat split; try assumption.
-  - destruct ps as [|p0 r]; [destruct Hin|]. unfold pwc_M in *.
-    destruct (pwc_M_dominates (p0 :: r) p Hin) as [A1 A2]. destruct (pwc_M_dominates (p0 :: r) p' Hin') as [B1 B2].
-    cbn [hd tl] in *. pose proof (Hne p' Hin'). pose proof (Hne p Hin). lra.
-  - destruct ps as [|p0 r]; [destruct Hin|]. unfold pwc_M in *.
-    destruct (pwc_M_dominates (p0 :: r) p Hin) as [A1 A2]. destruct (pwc_M_dominates (p0 :: r) p' Hin') as [B1 B2].
-    cbn [hd tl] in *. pose proof (Hne p' Hin'). pose proof (Hne p Hin). lra.
+  intros Hne Hin Hx Hy. apply (pwc_complete _ x y ps p Hin Hx Hy).
+  intros p' Hin'.
+  destruct ps as [|p0 r]; [destruct Hin|]. unfold pwc_M.
+  destruct (pwc_M_dominates (p0 :: r) p Hin) as (A1 & A2 & A3 & A4).
+  destruct (pwc_M_dominates (p0 :: r) p' Hin') as (B1 & B2 & B3 & B4).
+  cbn [hd tl] in *. pose proof (Hne p' Hin'). pose proof (Hne p Hin).
+  set (S1 := ((list_max (pU p0) (map pU r) - list_min (pL p0) (map pL r)) * 2)) in *.
+  set (S2 := (list_max (pC p0) (map pC r) - list_min (pC p0) (map pC r))) in *.
+  pose proof (qmax_ge_l S1 S2). pose proof (qmax_ge_r S1 S2). subst S1 S2.
+  repeat split; lra.
 Qed.
 
-(* the code's M does not cover the constants: ranges [0,1],[2,3], constants 0 and 100 *)
-Theorem pwc_M_refuted : exists x y ps p,
-  (forall p', In p' ps -> pL p' <= pU p') /\ In p ps /\ pL p <= x <= pU p /\ y == pC p /\ ~ pwc (pwc_M ps) x y ps.
+(* the M used before the fix did not cover the constants: ranges [0,1],[2,3], constants 0 and 100 *)
+Theorem pwc_M_old_refuted : exists x y ps p,
+  (forall p', In p' ps -> pL p' <= pU p') /\ In p ps /\ pL p <= x <= pU p /\ y == pC p /\ ~ pwc (pwc_M_old ps) x y ps.
 Proof.
   exists 0, 0, [(0, 1, 0); (2, 3, 100)], (0, 1, 0).
   split; [intros p' [<-|[<-|[]]]; unfold pL, pU; cbn; lra|].
   split; [left; reflexivity|]. split; [unfold pL, pU; cbn; lra|]. split; [reflexivity|].
   intros (zs & Hb & Hs & Hr).
-  assert (EM : pwc_M [(0, 1, 0); (2, 3, 100)] == 6) by (vm_compute; reflexivity).
+  assert (EM : pwc_M_old [(0, 1, 0); (2, 3, 100)] == 6) by (vm_compute; reflexivity).
   inversion Hr as [|p1 z1 ? ? H1 Hr1]; subst. inversion Hr1 as [|p2 z2 ? ? H2 Hr2]; subst. inversion Hr2; subst.
   unfold rows_piece in H2. destruct H2 as (_ & _ & _ & H2). unfold pC in H2. cbn [snd] in H2. rewrite EM in H2.
   inversion Hb as [|? ? B1 Hb1]; subst. inversion Hb1 as [|? ? B2 _]; subst.
@@ -495,3 +497,36 @@ Section PwcBridge.
       repeat split; assumption.
   Qed.
 End PwcBridge.
+
+(* ---------------- the helpers as called by the code ---------------- *)
+Theorem intprod_helper_exact (x c p : var) (lb ub : Q) (a : var -> Q) :
+  (vfam x <> fBit /\ vfam x <> fComp) -> (vfam c <> fBit /\ vfam c <> fComp) -> (vfam p <> fBit /\ vfam p <> fComp) ->
+  lb <= a c <= ub -> lb <= 0 <= ub ->
+  let n := num_bits ub in
+  ((exists a', (forall v, vfam v <> fBit -> vfam v <> fComp -> a' v = a v) /\
+               Forall (sat_col a') (intprod_cols p lb ub n) /\ Forall (sat_row a') (intprod_rows x c p lb ub n))
+   <-> exists z : Z, a x == inject_Z z /\ (0 <= z < 2 ^ Z.of_nat n)%Z /\ a p == a x * a c).
+Proof. intros Hx Hc Hp Hca H0 n. apply intprod_rows_exact; assumption. Qed.
+
+(* finding: the bit width comes from the bound of the CONTINUOUS factor, so an integer factor that
+   is admissible for its own variable can be cut off (here ub = 0: zero bits, x = 1 excluded) *)
+Theorem intprod_domain_refuted : exists (lb ub x c : Q),
+  lb <= c <= ub /\ lb <= 0 <= ub /\ (exists z : Z, x == inject_Z z /\ (0 <= z)%Z) /\
+  ~ intprod (num_bits ub) x c (x * c) lb ub.
+Proof.
+  exists 0, 0, 1, 0. split; [lra|]. split; [lra|]. split; [exists 1%Z; split; [reflexivity|lia]|].
+  apply (intprod_cuts_off (num_bits 0) 1 0 (1 * 0) 0 0 1%Z); [lra|lra|reflexivity|].
+  vm_compute. discriminate.
+Qed.
+
+Theorem pwc_helper_exact (x y : var) (ps : list piece) (a : var -> Q) :
+  vfam x <> fZ -> vfam y <> fZ ->
+  (forall p', In p' ps -> pL p' <= pU p') ->
+  ((exists a', (forall v, vfam v <> fZ -> a' v = a v) /\
+               Forall (sat_col a') (pwc_cols y ps) /\ Forall (sat_row a') (pwc_rows x y ps))
+   <-> exists p, In p ps /\ pL p <= a x <= pU p /\ a y == pC p).
+Proof.
+  intros Hx Hy Hne. unfold pwc_rows. rewrite (pwc_rows_exact x y (pwc_M ps) ps Hx Hy a). split.
+  - apply pwc_sound.
+  - intros (p & Hin & Hr & Hc). apply (pwc_code_M_complete (a x) (a y) ps p Hne Hin Hr Hc).
+Qed.
